@@ -62,6 +62,16 @@ protected:
             return update({nullptr}, ts);
         }
         std::shared_ptr<V> reader() { return std::atomic_load(&ref); }
+        // drop `r` from the box -- unless it has been substituted already:
+        // a borrower recycling an old object must not evict a newer one
+        // that other borrowers share
+        void reset_if(const std::shared_ptr<V>& r) {
+            if (std::atomic_load(&ref) != r) return;
+            lastcreate = 0;     // as in reset(): before the object goes
+            auto expected = r;
+            std::atomic_compare_exchange_strong(&ref, &expected,
+                                                std::shared_ptr<V>{});
+        }
 
         void acquire() {
             timestamp = photon::now;
@@ -163,7 +173,7 @@ public:
         Borrow& operator=(Borrow&& rhs) {
             if (this != &rhs) {
                 if (_box) {
-                    if (_recycle) _box->reset();
+                    if (_recycle) _box->reset_if(_reader);
                     _box->release();
                     if (_box->rc == 0) {
                         SCOPED_LOCK(_oc->maplock);
@@ -184,7 +194,7 @@ public:
         ~Borrow() {
             if (!_box) return;
             if (_recycle) {
-                _box->reset();
+                _box->reset_if(_reader);
             }
             _box->release();
             if (_box->rc == 0) {
